@@ -344,10 +344,19 @@ def _roundtrip(rep, M, O, parse, lengths, file):
     for pres in itertools.product((False, True), repeat=4):
         present = (pres[0], pres[1], True, True, pres[2], pres[3])
         idx = [i for i in range(6) if present[i]]
+        cases = []
         for runs in itertools.product(lengths, repeat=len(idx)):
             vals = [None] * 6
             for i, r_ in zip(idx, runs):
                 vals[i] = int(DIGITS[r_])
+            cases.append(vals)
+        # the mandatory groups C and D may be 0 (the premise restricts only the optional groups)
+        base = [7 if present[i] else None for i in range(6)]
+        for c0, d0 in ((0, 7), (7, 0), (0, 0), (0, 255), (255, 0)):
+            v0 = list(base)
+            v0[2], v0[3] = c0, d0
+            cases.append(v0)
+        for vals in cases:
             r = AE.apply(fn, [AObj("Obis", {G: tuple(vals)}, cls_key=(MOD, "Obis"))])
             if r[0] in ("undecided", "branch"):
                 raise Undecided(f"to_reduced_str outside the interpreted subset: {r[1]}")
